@@ -157,6 +157,8 @@ def run(ctx):
         ik = (kind_of(v, impl), coefmap(v, impl))
         if mk != ik:
             ctx.mismatch(op, desc, str(mk)[:600], str(ik)[:600])
+        if not ans.startswith('ok'):
+            return None
         # dense oracle
         dense = None
         if a.dense is not None and (not isinstance(b, Node) or b.dense is not None) and ik[0] not in ('plist',):
